@@ -38,7 +38,7 @@ structure Hint where
   dir : Dir
   len : Rat
   fixed : Bool
-deriving Repr
+deriving Repr, DecidableEq
 
 /-- distance requirement: at least `len`, exactly `len` when fixed -/
 def Reach (fixed : Bool) (d len : Rat) : Prop := if fixed then d = len else len ≤ d
@@ -56,7 +56,7 @@ def Hint.Sat (L : Layout) (h : Hint) : Prop :=
 structure Body where
   pins : List (String × Rat × Rat)
   stretch : Bool
-deriving Repr
+deriving Repr, DecidableEq
 
 /-- one axis, one ordered pair of pins: coordinate `c`, offsets `o` -/
 def PairOk (stretch : Bool) (c₁ o₁ c₂ o₂ : Rat) : Prop :=
@@ -72,7 +72,7 @@ def Body.Sat (L : Layout) (b : Body) : Prop :=
 inductive Item
   | hint (h : Hint)
   | body (b : Body)
-deriving Repr
+deriving Repr, DecidableEq
 
 def Item.Sat (L : Layout) : Item → Prop
   | .hint h => h.Sat L
